@@ -189,6 +189,14 @@ def r4_pairing(ctx):
                 if e[0] == "switch" and e[2][0] == "bin" and e[2][1] == "Eq" and 59 in (const_int(e[2][2]), const_int(e[2][3])):
                     semis += 1
         ctx.ob("R4", "unescape_with:unterminated", unterminated >= 1 and semis >= 1, "a '&' not followed by ';' as the next hit is UnterminatedEntity (error exits %d, ';' tests %d)" % (unterminated, semis), config=cfg)
+        # after a resolved entity copying resumes right after the ';' (last_end = end + 1), and the text before the '&' is copied
+        okl = False
+        for p in paths:
+            if p[-1][0] == "loop":
+                le = p[-1][2].get("last_end")
+                if le is not None and le[0] == "bin" and le[1] == "Add" and le[3] == ("c", "usize", 1) and has_subterm(le[2], lambda s: call_is(s, "next")):
+                    okl = True
+        ctx.ob("R4", "unescape_with:resume-after-semicolon", okl, "after an entity the copy position is the index of ';' + 1", config=cfg)
         # unknown entity -> error, never copied through
         unk = sum(1 for p in paths if ret_of(p) is not None and describe_ret(ret_of(p), 2)[0][:2] == ("Err", "UnrecognizedEntity"))
         ctx.ob("R4", "unescape_with:unknown-entity", unk >= 1, "an unresolved entity is an error", config=cfg)
